@@ -134,8 +134,8 @@ func VerifWirePreloadedReliable(b []byte) *Reliable {
 }
 
 // VerifWireRecvAck builds a sender in the given state (ackNo, one unacknowledged frame per entry of
-// dataLens with consecutive frame numbers starting at uint32(ackNo), window size, duplicate-ack
-// counter), runs the production recvAck(ack) and reports the state afterwards.
+// dataLens with consecutive frame numbers starting at uint32(ackNo), frameNo just past them,
+// window size, duplicate-ack counter), runs the production recvAck(ack) and reports the state afterwards.
 func VerifWireRecvAck(ackNo uint64, dataLens []uint16, window uint16, dup int, ack uint32) (newAck uint64, remaining int, missing uint32, err error) {
 	s := newSender(verifWireLog())
 	defer s.RetransmitTicker.Stop()
@@ -150,6 +150,8 @@ func VerifWireRecvAck(ackNo uint64, dataLens []uint16, window uint16, dup int, a
 		}{f, time.Now()})
 	}
 	s.unacked = uint16(len(dataLens))
+	// keep the sender's own invariant: frame numbers [ackNo, frameNo) are exactly the buffered frames
+	s.frameNo = uint32(ackNo) + uint32(len(dataLens))
 	missing, err = s.recvAck(ack)
 	return s.ackNo, len(s.frames), missing, err
 }
